@@ -666,6 +666,7 @@ def finish(pid, tier, seed, reg, results, fuzz, cvc5_res, extra, t_start):
         for fl in fz['failures']:
             fuzz_fail.append((fz['name'], fl))
     vio_out = []
+    known_out = []
     exit_code = 0
     os.makedirs(replay_dir, exist_ok=True)
 
@@ -690,6 +691,10 @@ def finish(pid, tier, seed, reg, results, fuzz, cvc5_res, extra, t_start):
         k = is_known(oname, wtxt)
         if k is not None:
             lines.append(f'KNOWN-FINDING: property={pid} {k.get("what", oname)}')
+            # a recorded finding is reported, not claimed: it is not among the obligations whose
+            # discharge the proof-level claim counts
+            n_obl -= 1
+            known_out.append(dict(obligation=oname, what=k.get('what'), verdict=verdict, replay=path))
             continue
         suffix = '' if verdict.startswith('reproduced') else ' no-failing-input-found'
         lines.append(f'VIOLATION property={pid} replay={path}{suffix}')
@@ -766,6 +771,7 @@ def finish(pid, tier, seed, reg, results, fuzz, cvc5_res, extra, t_start):
             engine_errors=[dict(unit=a, error=b) for a, b in engine_errors + fuzz_errors],
             samples=samples or [dict(note='no SMT sample (all obligations syntactic)')],
             violations=vio_out,
+            known_findings=known_out,
         ),
         assumptions=assumptions,
         wall_s=round(wall, 2),
